@@ -97,7 +97,7 @@ func (u u64Q) Name() string { return "NewUint64" }
 
 var vnames = []string{"New[int64]", "NewPointer", "NewUint64"}
 
-func newQ(variant int, maxv int) qapi {
+func newQ0(variant int, maxv int) qapi {
 	switch variant {
 	case 0:
 		return genQ{lscq.New[int64]()}
@@ -982,6 +982,11 @@ func main() {
 			"constants(scqsize, cache line, cacheRemap16Byte)", true, nil, map[string]interface{}{"scqsize": lscq.VerifSCQSize, "entries_per_line": lscq.VerifEntriesPerLine}})
 	}
 
+	// ---- the fast-forward constructor against really driven rings (laps.go); a difference is a harness/hook error (kind 1) ----
+	for _, d := range validateFF() {
+		light = append(light, pending{"CConst 0 0 []", "fast-forward hook differs from a really driven ring", true, nil, map[string]interface{}{"difference": d}})
+	}
+
 	// ---- sequential: many short / medium traces ----
 	nlight := 240
 	if th {
@@ -999,8 +1004,12 @@ func main() {
 		if rng.Chance(1, 6) { // start with dequeues on the fresh queue (threshold -1 path)
 			bs = append([]burst{{false, rng.Range(1, 3)}}, bs...)
 		}
+		if (i/3)%2 == 1 {
+			curLaps = pickLap(rng)
+		}
 		term, steps, nt, _ := seqCase(variant, bs, rng)
-		light = append(light, pending{term, "sequential/" + vnames[variant] + "/short", nt, steps, map[string]interface{}{"variant": variant, "bursts": fmt.Sprint(bs)}})
+		light = append(light, pending{term, "sequential/" + vnames[variant] + "/short" + lapTag(), nt, steps, map[string]interface{}{"variant": variant, "bursts": fmt.Sprint(bs), "lap_offset": curLaps}})
+		curLaps = 0
 	}
 	// ---- sequential: segment-crossing and threshold traces (one Coq shard each) ----
 	type hv struct {
@@ -1008,6 +1017,7 @@ func main() {
 		variant int
 		bs      []burst
 	}
+	hvLaps := map[int]uint64{} // index in hvs -> lap offset the ring is fast-forwarded to before the trace (laps.go)
 	hvs := []hv{
 		{"burst 70000, drain, empty answers", 0, []burst{{true, 70000}, {false, 100}, {false, 69900}, {false, 5}, {true, 3}, {false, 4}}},
 		{"fill to 65535/65536/65537 then alternate across the boundary", 1, []burst{{true, N - 1}, {true, 1}, {true, 1}, {false, 1}, {true, 2}, {false, 3}, {true, 1}, {false, N - 10}, {true, 20}, {false, 40}}},
@@ -1031,10 +1041,18 @@ func main() {
 		}
 		hvs = append(hvs, hv{"five segments", 1, []burst{{true, 5*N + 7}, {false, 5*N + 9}}})
 	}
-	for _, x := range hvs {
+	// one trace per variant that crosses a lap boundary of the first ring (no new segment), started just below a
+	// lap number at which a truncated cycle / position field would wrap
+	for v, k := range []uint64{1<<16 - 2, 1<<32 - 2, 1<<31 - 2} {
+		hvLaps[len(hvs)] = k
+		hvs = append(hvs, hv{"across a lap boundary of one ring", v, []burst{{true, N - 3}, {false, N - 3}, {true, 10}, {false, 4}, {true, 3}, {false, 12}, {true, 2}, {false, 1}}})
+	}
+	for xi, x := range hvs {
+		curLaps = hvLaps[xi]
 		term, steps, nt, nc := seqCase(x.variant, x.bs, rng)
-		heavy = append(heavy, pending{term, "sequential/" + vnames[x.variant] + "/segments: " + x.name, nt, steps,
-			map[string]interface{}{"variant": x.variant, "bursts": fmt.Sprint(x.bs), "calls": nc}})
+		heavy = append(heavy, pending{term, "sequential/" + vnames[x.variant] + "/segments: " + x.name + lapTag(), nt, steps,
+			map[string]interface{}{"variant": x.variant, "bursts": fmt.Sprint(x.bs), "calls": nc, "lap_offset": hvLaps[xi]}})
+		curLaps = 0
 	}
 
 	// ---- concurrent: small contended histories, decided by aspects_b inside Coq ----
@@ -1064,7 +1082,12 @@ func main() {
 		if profile == 1 {
 			nw = P + C
 		}
+		if (i/3)%3 == 2 {
+			curLaps = pickLap(rng)
+		}
 		q := newQ(variant, nw*per+5)
+		lapT := lapTag()
+		curLaps = 0
 		clock = 0
 		scripts, nbar := makeScripts(rng, profile, P, C, per, 0)
 		pert := ""
@@ -1079,7 +1102,7 @@ func main() {
 			// the twin's verdict is not trusted on its own: the case below is decided by Coq; this is only a note
 			twinAgree--
 		}
-		label := fmt.Sprintf("concurrent/%s/%s%s", q.Name(), []string{"bursty", "alternating", "drain-refill"}[profile], pert)
+		label := fmt.Sprintf("concurrent/%s/%s%s%s", q.Name(), []string{"bursty", "alternating", "drain-refill"}[profile], pert, lapT)
 		light = append(light, pending{fmt.Sprintf("CHist true true %s\n %s", vhlib.Bool(tv), histStr(h)), label, len(scripts) >= 2, nil,
 			map[string]interface{}{"P": P, "C": C, "per": per, "profile": profile, "events": len(h)}})
 		if len(keepForTwin) < 12 && len(h) >= 12 {
@@ -1137,6 +1160,10 @@ func main() {
 	notParked, wrongEmpties := 0, 0
 	for variant := 0; variant < 3; variant++ {
 		for i := 0; i < nne; i++ {
+			if i%2 == 1 {
+				curLaps = pickLap(rng)
+			}
+			lapT := lapTag()
 			q := newQ(variant, 400)
 			clock = 0
 			h, parked := scriptedNearEmpty(q, rng.Range(12, 28), rng, &clock)
@@ -1144,11 +1171,12 @@ func main() {
 				notParked++
 			}
 			light = append(light, pending{fmt.Sprintf("CHist true true %s\n %s", vhlib.Bool(twin(h, true, true)), histStr(h)),
-				fmt.Sprintf("concurrent/%s/near-empty(parked enqueuer, tokens)", q.Name()), true, nil,
+				fmt.Sprintf("concurrent/%s/near-empty(parked enqueuer, tokens)%s", q.Name(), lapT), true, nil,
 				map[string]interface{}{"events": len(h), "every_round_parked": parked}})
 			P, C := rng.Range(2, 4), rng.Range(1, 3)
 			per := 90 / P
 			q = newQ(variant, P*per+5)
+			curLaps = 0
 			clock = 0
 			h = tokenNearEmpty(q, P, C, per, &clock)
 			for _, e := range h[:len(h)-1] {
@@ -1157,7 +1185,7 @@ func main() {
 				}
 			}
 			light = append(light, pending{fmt.Sprintf("CHist true true %s\n %s", vhlib.Bool(twin(h, true, true)), histStr(h)),
-				fmt.Sprintf("concurrent/%s/near-empty(jitter, tokens)", q.Name()), true, nil,
+				fmt.Sprintf("concurrent/%s/near-empty(jitter, tokens)%s", q.Name(), lapT), true, nil,
 				map[string]interface{}{"P": P, "C": C, "per": per, "events": len(h)}})
 		}
 	}
@@ -1171,7 +1199,12 @@ func main() {
 	for variant := 0; variant < 3; variant++ {
 		for i := 0; i < nidle; i++ {
 			for kind := 0; kind < 2; kind++ {
+				if i%2 == 1 {
+					curLaps = pickLap(rng)
+				}
+				lapT := lapTag()
 				q := newQ(variant, 6000)
+				curLaps = 0
 				clock = 0
 				split := (i+kind)%2 == 1
 				pre, polls, budget := idlePoll(q, rng, &clock, split)
@@ -1199,7 +1232,7 @@ func main() {
 				h = append(pre, h...)
 				sort.Slice(h, func(a, b int) bool { return h[a].inv < h[b].inv })
 				light = append(light, pending{fmt.Sprintf("CHist true true %s\n %s", vhlib.Bool(twin(h, true, true)), histStr(h)),
-					fmt.Sprintf("concurrent/%s/%s", q.Name(), label), true, nil,
+					fmt.Sprintf("concurrent/%s/%s%s", q.Name(), label, lapT), true, nil,
 					map[string]interface{}{"events": len(h), "unrecorded_empty_polls": polls, "threshold_after_polling": budget, "refill_midway": split}})
 			}
 		}
@@ -1213,9 +1246,13 @@ func main() {
 	lapNotParked := 0
 	for variant := 0; variant < 3; variant++ {
 		for i := 0; i < nlap; i++ {
+			if i%2 == 1 {
+				curLaps = pickLap(rng)
+			}
 			q := newQ(variant, 3000)
 			clock = 0
-			label := lappedLabel(q)
+			label := lappedLabel(q) + lapTag()
+			curLaps = 0
 			h, parked := lappedConsumer(q, rng.Range(1, 3), rng, &clock, func(what string, detail interface{}) { w.Violation(label, what, detail) })
 			if !parked {
 				lapNotParked++
@@ -1225,6 +1262,7 @@ func main() {
 		}
 	}
 	w.Notes["lapped_consumer_runs_where_a_party_did_not_park"] = lapNotParked
+	w.Notes["fast_forward_refused"] = ffRefused
 	w.Notes["idle_polling_unrecorded_empty_polls"] = totalPolls
 	w.Notes["idle_polling_threshold_before_the_rounds"] = budgets
 	w.Notes["near_empty_rounds_where_the_enqueuer_did_not_park"] = notParked
@@ -1242,7 +1280,12 @@ func main() {
 		variant := i % 3
 		T := rng.Range(2, 4)
 		scripts, drain := tinyScripts(rng, T)
+		if (i/3)%3 == 2 && (i/9)%2 == 0 { // (the other two thirds start with a warm-up / a sequential prefix)
+			curLaps = pickLap(rng)
+		}
+		lapT := lapTag()
 		q := newQ(variant, N+200)
+		curLaps = 0
 		warm := 0
 		if (i/3)%3 == 0 { // unrecorded sequential warm-up that leaves the queue empty: the recorded calls straddle a wrap of the ring index (cycle change)
 			warm = N - rng.Range(0, 5)
@@ -1303,7 +1346,7 @@ func main() {
 		spinStart = false
 		lscq.VerifYieldHook = nil
 		h = append(pre, h...)
-		label := fmt.Sprintf("concurrent/%s/tiny(lin_check)/T=%d%s", q.Name(), T, pert)
+		label := fmt.Sprintf("concurrent/%s/tiny(lin_check)/T=%d%s%s", q.Name(), T, pert, lapT)
 		if warm > 0 {
 			label += "+cycle-wrap"
 		}
